@@ -307,6 +307,11 @@ func init() {
 	vfProfiles["C12"].Rule = "two to three users with web-UI sessions; clients A (secret), B (secret-less, PKCE), C (secret, other domains); seeded sequences of authorize (redirect same/other/foreign, challenge S256/none/plain/unknown/absent, nonce, audience) and token requests over all combinations of presenting client, secret right/wrong/absent (header or form), verifier right/wrong/absent, redirect same/different, code fresh/expired by clock/corrupted/issued to another client/other artefact kind; userinfo with access token, ID token, cookie, code. non-trivial = tokens released at least once and refused at least once; distinct = distinct canonical event log"
 }
 
+// issuers of other deployments, including ones this server's own issuer URL is a prefix of
+func vfForeignIssuer(n int) string {
+	return []string{"https://other-keymaster.sim", vfIssuer + ":8443", vfIssuer + ".staging.example.net", vfIssuer + "/"}[n%4]
+}
+
 type vfTokenReq struct {
 	Art          *vfArtefact
 	Client       string
@@ -331,9 +336,9 @@ func (w *vfWorld) forge(st vfStep) {
 		return func(m map[string]any) {
 			switch name {
 			case "iss":
-				m["iss"] = "https://other-keymaster.sim"
+				m["iss"] = vfForeignIssuer(int(st.N))
 			case "aud":
-				m["aud"] = []string{"https://other-keymaster.sim"}
+				m["aud"] = []string{vfForeignIssuer(int(st.N))}
 			case "kind":
 				if _, ok := m["token_type"]; ok {
 					m["token_type"] = map[string]string{"keymaster_auth": "keymaster_webauth_for_cli_identity", "keymaster_webauth_for_cli_identity": "keymaster_auth", "storage_data": "keymaster_auth"}[fmt.Sprint(m["token_type"])]
@@ -809,9 +814,15 @@ func genTokenPlan(r *rand.Rand, tier, focus string) *vfPlan {
 		case x < 66:
 			add(vfStep{Op: "mint_storage", User: pick(r, users)})
 		case x < 80:
-			add(vfStep{Op: "forge", A: "last:" + pick(r, kinds), B: pick(r, forgeries), N: int64(r.IntN(40))})
-			add(vfStep{Op: "present", A: fmt.Sprintf("%d", 0), B: pick(r, consumers)})
-			p.Steps[len(p.Steps)-1].A = "newest"
+			fk, fh := pick(r, kinds), pick(r, forgeries)
+			fc := pick(r, consumers)
+			if strings.HasPrefix(fh, "claim:") || chance(r, 0.4) {
+				// a single-claim mutant says something only to the consumer of its own kind
+				fc = pick(r, map[string][]string{"cookie": {"session", "sessionpost", "certgen"}, "code": {"token"}, "idtoken": {"userinfo"}, "access": {"userinfo"},
+					"clitoken": {"cliverify", "clisend"}, "storage": {"storage"}}[fk])
+			}
+			add(vfStep{Op: "forge", A: "last:" + fk, B: fh, N: int64(r.IntN(40))})
+			add(vfStep{Op: "present", A: "newest", B: fc})
 		case x < 92:
 			k := pick(r, kinds)
 			c := pick(r, consumers)
